@@ -1,5 +1,6 @@
 import Proofs.AnsiRaw
 import Proofs.AnsiSgr
+import Proofs.RawLineCallers
 /-!
 C08 — git's default colouring is ignored; moved-line and raw colours are preserved.
 
@@ -225,6 +226,136 @@ example :
     keepsRawLine false false false [0x1b, 0x5b, 0x31, 0x3b, 0x33, 0x35, 0x6d, 0x2d, 0x78] [gitDefaultMinus, gitDefaultMinus] = false ∧
     keepsRawLine false false true [0x1b, 0x5b, 0x31, 0x3b, 0x33, 0x35, 0x6d, 0x2d, 0x78] [gitDefaultMinus, gitDefaultMinus] = true := by
   decide
+
+/-! ### Which styles the callers of `maybe_raw_line` treat as ordinary colouring
+
+`Generated.rawArms`, `rawArmWordDiff`, `cfgGitMinusSource`, `cfgGitPlusSource` are read from
+`new_line_state` (src/handlers/hunk.rs), src/config.rs and src/parse_styles.rs on every run: lists of any
+length and order are taken as they are, the theorems say what they must contain. -/
+
+open Generated (HunkKind GitDefaultRef RawStyleRef RawArm) in
+/-- The arms of `new_line_state`, unified and combined diffs alike: a `-` line enters `HunkMinus` with
+`config.minus_style.is_raw` and the ordinary styles {git's built-in minus style, `config.git_minus_style`};
+a `+` line likewise with the plus styles; an unchanged line has no ordinary style (any colouring of it is
+kept); a `\` line is no hunk line. Under `git diff --word-diff` every line takes the unchanged-line arm. -/
+theorem raw_line_arms_table : ∀ combined : Bool,
+    armOk (rawArmFor false '-' combined) .minus [.gitDefault .minus, .cfgGitMinus] = true ∧
+    armOk (rawArmFor false '+' combined) .plus [.gitDefault .plus, .cfgGitPlus] = true ∧
+    armOk (rawArmFor false ' ' combined) .zero [] = true ∧
+    rawArmFor false '\\' combined = none ∧
+    (∀ c : Char, armOk (rawArmFor true c combined) .zero [] = true) := by
+  intro combined
+  refine ⟨?_, ?_, ?_, ?_, ?_⟩
+  · revert combined; decide
+  · revert combined; decide
+  · revert combined; decide
+  · revert combined; decide
+  · intro c
+    have : rawArmFor true c combined = some Generated.rawArmWordDiff := rfl
+    rw [this]; decide
+
+/-- `config.git_minus_style` is `color.diff.old` of the gitconfig delta reads, or else git's built-in red;
+`config.git_plus_style` is `color.diff.new`, or else the built-in green. -/
+theorem config_git_styles_source (g : GitColors) :
+    configGitMinusStyle g = (g.lookup "color.diff.old").getD gitDefaultMinus ∧
+    configGitPlusStyle g = (g.lookup "color.diff.new").getD gitDefaultPlus := by
+  have h1 : Generated.cfgGitMinusSource = ("color.diff.old", .minus) := by decide
+  have h2 : Generated.cfgGitPlusSource = ("color.diff.new", .plus) := by decide
+  simp only [configGitMinusStyle, configGitPlusStyle, cfgGitStyle, h1, h2]
+  constructor
+  · cases g.lookup "color.diff.old" <;> rfl
+  · cases g.lookup "color.diff.new" <;> rfl
+
+/-- `red bold` configured for removed lines, nothing for added lines. -/
+example : configGitMinusStyle [("color.diff.old", { bold := true, fg := some (.named 1) })] =
+      { bold := true, fg := some (.named 1) } ∧
+    configGitPlusStyle [("color.diff.old", { bold := true, fg := some (.named 1) })] = gitDefaultPlus := by
+  decide
+
+/-- **Git's default colouring is ignored whatever the gitconfig says**: for every `color.diff.old/new`
+(set or not), in unified and combined diffs, with or without inspection, a removed line that starts with
+`ESC[31m` and an added line that starts with `ESC[32m` are not kept raw (default options: no raw style,
+no word-diff). -/
+theorem git_default_colouring_ignored_any_gitconfig (i : Bool) (isRaw : Generated.HunkKind → Bool)
+    (hm : isRaw .minus = false) (hp : isRaw .plus = false) (g : GitColors) (combined : Bool) (rest : Bytes) :
+    hunkLineKeepsRaw false i isRaw g '-' combined ([0x1b, 0x5b, 0x33, 0x31, 0x6d] ++ rest) = some false ∧
+    hunkLineKeepsRaw false i isRaw g '+' combined ([0x1b, 0x5b, 0x33, 0x32, 0x6d] ++ rest) = some false := by
+  obtain ⟨h1, h2, _⟩ := raw_line_arms_table combined
+  rw [hunkLineKeepsRaw_of_armOk h1, hunkLineKeepsRaw_of_armOk h2, hm, hp]
+  have := git_default_colouring_ignored i rest (configGitMinusStyle g)
+  have := git_default_colouring_ignored i rest (configGitPlusStyle g)
+  simp_all [resolveRawStyle, gitDefaultStyle]
+
+/-- …and so is **the colouring git produces with the configured colours**: a removed line whose leading
+SGR sequence parses to a style equal (`ansi_term_style_equality`) to the configured `color.diff.old` is
+not kept raw. -/
+theorem configured_minus_colouring_ignored (i : Bool) (isRaw : Generated.HunkKind → Bool)
+    (hm : isRaw .minus = false) (g : GitColors) (combined : Bool) (body : Bytes) (hb : SgrBody body)
+    (rest : Bytes) (ps : List (List Nat)) (hps : csiKind body 0x6d = .sgr ps) (st : Style)
+    (hg : g.lookup "color.diff.old" = some st) (he : styleEq (sgrToStyle ps) st = true) :
+    hunkLineKeepsRaw false i isRaw g '-' combined (0x1b :: 0x5b :: (body ++ 0x6d :: rest)) = some false := by
+  obtain ⟨h1, _⟩ := raw_line_arms_table combined
+  rw [hunkLineKeepsRaw_of_armOk h1, hm]
+  obtain ⟨ps', hk, h⟩ := keepsRawLine_sgr_prefix i body hb rest
+    ([Generated.RawStyleRef.gitDefault .minus, .cfgGitMinus].map (resolveRawStyle g))
+  rw [hps] at hk; cases hk
+  have hc : configGitMinusStyle g = st := by rw [(config_git_styles_source g).1, hg]; rfl
+  rw [h]; simp [resolveRawStyle, hc, he]
+
+/-- The same for an added line and `color.diff.new`. -/
+theorem configured_plus_colouring_ignored (i : Bool) (isRaw : Generated.HunkKind → Bool)
+    (hp : isRaw .plus = false) (g : GitColors) (combined : Bool) (body : Bytes) (hb : SgrBody body)
+    (rest : Bytes) (ps : List (List Nat)) (hps : csiKind body 0x6d = .sgr ps) (st : Style)
+    (hg : g.lookup "color.diff.new" = some st) (he : styleEq (sgrToStyle ps) st = true) :
+    hunkLineKeepsRaw false i isRaw g '+' combined (0x1b :: 0x5b :: (body ++ 0x6d :: rest)) = some false := by
+  obtain ⟨_, h2, _⟩ := raw_line_arms_table combined
+  rw [hunkLineKeepsRaw_of_armOk h2, hp]
+  obtain ⟨ps', hk, h⟩ := keepsRawLine_sgr_prefix i body hb rest
+    ([Generated.RawStyleRef.gitDefault .plus, .cfgGitPlus].map (resolveRawStyle g))
+  rw [hps] at hk; cases hk
+  have hc : configGitPlusStyle g = st := by rw [(config_git_styles_source g).2, hg]; rfl
+  rw [h]; simp [resolveRawStyle, hc, he]
+
+/-- `color.diff.old = red bold`: a removed line git coloured `ESC[1;31m` and one coloured with the built-in
+`ESC[31m` are both ignored; `ESC[1;35m` (oldMoved) is kept. -/
+example :
+    let g : GitColors := [("color.diff.old", { bold := true, fg := some (.named 1) })]
+    hunkLineKeepsRaw false true (fun _ => false) g '-' false [0x1b, 0x5b, 0x31, 0x3b, 0x33, 0x31, 0x6d, 0x2d, 0x78] = some false ∧
+    hunkLineKeepsRaw false true (fun _ => false) g '-' false [0x1b, 0x5b, 0x33, 0x31, 0x6d, 0x2d, 0x78] = some false ∧
+    hunkLineKeepsRaw false true (fun _ => false) g '-' false [0x1b, 0x5b, 0x31, 0x3b, 0x33, 0x35, 0x6d, 0x2d, 0x78] = some true := by
+  decide
+
+/-- **Nothing else is ignored** (moved-line colours are preserved under every gitconfig): with inspection
+on, a removed (added) line that starts with an SGR sequence is kept raw exactly when the parsed style
+equals neither git's built-in minus (plus) style nor the configured one. -/
+theorem moved_line_kept_raw_any_gitconfig (isRaw : Generated.HunkKind → Bool)
+    (hm : isRaw .minus = false) (hp : isRaw .plus = false) (g : GitColors) (combined : Bool)
+    (body : Bytes) (hb : SgrBody body) (rest : Bytes) :
+    ∃ ps, csiKind body 0x6d = .sgr ps ∧
+      hunkLineKeepsRaw false true isRaw g '-' combined (0x1b :: 0x5b :: (body ++ 0x6d :: rest)) =
+        some (!(styleEq (sgrToStyle ps) gitDefaultMinus || styleEq (sgrToStyle ps) (configGitMinusStyle g))) ∧
+      hunkLineKeepsRaw false true isRaw g '+' combined (0x1b :: 0x5b :: (body ++ 0x6d :: rest)) =
+        some (!(styleEq (sgrToStyle ps) gitDefaultPlus || styleEq (sgrToStyle ps) (configGitPlusStyle g))) := by
+  obtain ⟨h1, h2, _⟩ := raw_line_arms_table combined
+  rw [hunkLineKeepsRaw_of_armOk h1, hunkLineKeepsRaw_of_armOk h2, hm, hp]
+  obtain ⟨ps, hk, h⟩ := keepsRawLine_sgr_prefix true body hb rest
+    ([Generated.RawStyleRef.gitDefault .minus, .cfgGitMinus].map (resolveRawStyle g))
+  obtain ⟨ps', hk', h'⟩ := keepsRawLine_sgr_prefix true body hb rest
+    ([Generated.RawStyleRef.gitDefault .plus, .cfgGitPlus].map (resolveRawStyle g))
+  rw [hk] at hk'; cases hk'
+  refine ⟨ps, hk, ?_, ?_⟩
+  · rw [h]; simp [resolveRawStyle, gitDefaultStyle]
+  · rw [h']; simp [resolveRawStyle, gitDefaultStyle]
+
+/-- An unchanged line has no ordinary style: any leading SGR sequence keeps it raw (with inspection). -/
+theorem unchanged_line_any_colour_kept_raw (isRaw : Generated.HunkKind → Bool) (g : GitColors) (combined : Bool)
+    (body : Bytes) (hb : SgrBody body) (rest : Bytes) :
+    hunkLineKeepsRaw false true isRaw g ' ' combined (0x1b :: 0x5b :: (body ++ 0x6d :: rest)) =
+      some (true || isRaw .zero) := by
+  obtain ⟨_, _, h3, _⟩ := raw_line_arms_table combined
+  rw [hunkLineKeepsRaw_of_armOk h3]
+  obtain ⟨ps, _, h⟩ := lineHasStyleOtherThan_sgr_prefix body hb rest ([] : List Style)
+  simp [keepsRawLine, emit_raw_line_table, h]
 
 /-! ### Moved-line colours survive parsing and re-emission -/
 
